@@ -266,6 +266,7 @@ func validateRecs(dir string, recs []*run.Recorded, st *TraceStats, start time.T
 		return st, terr
 	}
 	// compare
+	shapes := map[string]int{}
 	bad := map[int]bool{} // containers with a fatal divergence: later lines are not comparable
 	okContainer := map[int]bool{}
 	for i := range recs {
@@ -324,7 +325,9 @@ func validateRecs(dir string, recs []*run.Recorded, st *TraceStats, start time.T
 		for _, d := range ds {
 			st.Divs[d.Kind]++
 			okContainer[ci] = false
-			if st.Divs[d.Kind] <= maxExamples {
+			sh := d.Kind + "|" + shapeOf(d.Detail)
+			shapes[sh]++
+			if shapes[sh] <= 3 && len(st.Examples) < 5*maxExamples {
 				st.Examples = append(st.Examples, traceExample{Div: d, Rec: recs[ci], UpTo: opIdx})
 			}
 			if d.Fatal {
